@@ -268,6 +268,9 @@ package main
 //@   requires [C13] s != nil && msg != nil && msg.Pub != nil && globals.hub != nil
 //@   modifies *
 //@   ensures [C13] answered: outTotal > old(outTotal) || sentTotal() > old(sentTotal())
+// (C03: a session publishes only to topics it is attached to - the system topic excepted; anything else is refused
+// here and reaches no topic and not the hub)
+//@   ensures [C03] unattached_refused: msg.RcptTo != "sys" && !(msg.RcptTo in s.subs) ==> sentTotal() == old(sentTotal()) && outTotal > old(outTotal)
 //@   ensures [C02] sender_header_server_controlled: sentTotal() > old(sentTotal()) && msg.Pub.Head != nil && ("sender" in msg.Pub.Head) ==> old(msg.AsUser) != s.uid.UserId()
 //@   ensures [C02] content_untouched: msg.Pub.Content == old(msg.Pub.Content) && msg.Pub.NoEcho == old(msg.Pub.NoEcho)
 //@   nopanic
@@ -864,6 +867,7 @@ package main
 //@   locksafe
 //@ func (s *Session) getSub(topic string) (sub *Subscription)
 //@   requires [C14] s != nil
+//@   ensures [C03] is_the_entry: ((topic in s.subs) ==> sub == s.subs[topic]) && (!(topic in s.subs) ==> sub == nil)
 //@   modifies inferred
 //@   locksafe
 //@ func (s *Session) delSub(topic string)
